@@ -21,7 +21,8 @@ RULE = ("Hypothesis-generated programs for the 8 buffered classes over 2-4 exist
         "overflow at the load or at the save of an operation flushes everything), be <= capacity, be 0 "
         "outside contexts; the capacity must equal the model's capacity stack; every file without "
         "pending buffered modifications must be up to date on disk (a forced flush loses nothing). "
-        "Non-trivial = a capacity-forced flush, a capacity change inside a context, or clear/reset as "
+        "A last, enumerated part uses two different (related) buffered classes in one process: each "
+        "class's size must be unaffected by the other's. Non-trivial = a capacity-forced flush, a capacity change inside a context, or clear/reset as "
         "first buffered access of a file; distinct by (class, kinds-of-steps sequence).")
 ASSUMPTIONS = [
     "type-stable value alphabet (strings, ints >= 2) so that ==-equal values of other JSON types cannot "
@@ -44,7 +45,65 @@ class StableDom(gen.Dom):
 
 def shards(tier):
     reps = 2 if tier == "quick" else 12
-    return [{"cls": c.name, "rep": r} for c in BUFFERED for r in range(reps)]
+    return [{"cls": c.name, "rep": r} for c in BUFFERED for r in range(reps)] + [{"cls": "pairs", "mode": "pairs"}]
+
+
+RELATED = [("BufferedJSONDict", "BufferedJSONAttrDict"), ("BufferedJSONList", "BufferedJSONAttrList"),
+           ("MemoryBufferedJSONDict", "MemoryBufferedJSONAttrDict"),
+           ("MemoryBufferedJSONList", "MemoryBufferedJSONAttrList"),
+           ("BufferedJSONDict", "BufferedJSONList"), ("MemoryBufferedJSONDict", "MemoryBufferedJSONList")]
+
+
+def run_pair_case(case):
+    """Two different buffered classes used in one process: their buffers are separate, so each
+    class's reported size and capacity must be unaffected by the other's."""
+    import copy
+    import shutil
+    from ..classes import new_resource, reset_class_state
+    from ..world import Mismatch
+    a_ci, b_ci = CLASSES[case["a"]], CLASSES[case["b"]]
+    d = wm.case_dir()
+    reset_class_state()
+    try:
+        def obj(ci, name):
+            r = new_resource(ci, d, name)
+            r.write({"k": [1, 2, 3]} if ci.kind == "dict" else [1, 2, 3])
+            return r.make(ci)
+
+        def touch(o, ci):
+            if ci.kind == "dict":
+                o["x"] = "y" * 10
+            else:
+                o.append("y" * 10)
+        A1, A2, B1 = obj(a_ci, "a1.json"), obj(a_ci, "a2.json"), obj(b_ci, "b1.json")
+        ca = a_ci.cls.buffer_backend()
+        ca.__enter__()
+        touch(A1, a_ci)
+        touch(A2, a_ci)
+        size_a = a_ci.cls.get_current_buffer_size()
+        if size_a == 0:
+            raise Mismatch("pair_setup_no_buffered_data")
+        if b_ci.cls.get_current_buffer_size() != 0:
+            raise Mismatch("other_class_reports_foreign_size", cls=b_ci.name, size=b_ci.cls.get_current_buffer_size())
+        cb = b_ci.cls.buffer_backend() if case["b_ctx"] == "cls" else B1.buffered
+        cb.__enter__()
+        B1()
+        touch(B1, b_ci)
+        exp_b = 1 if b_ci.buffered == "memory" else len(__import__("json").dumps(B1._to_base()).encode())
+        got_b = b_ci.cls.get_current_buffer_size()
+        if got_b != exp_b:
+            raise Mismatch("size_mixed_between_classes", cls=b_ci.name, got=got_b, expected=exp_b, other=size_a)
+        if a_ci.cls.get_current_buffer_size() != size_a:
+            raise Mismatch("size_of_first_class_changed", got=a_ci.cls.get_current_buffer_size(), expected=size_a)
+        order = [(cb, b_ci), (ca, a_ci)] if case["exit"] == "ba" else [(ca, a_ci), (cb, b_ci)]
+        for c, ci in order:
+            c.__exit__(None, None, None)
+        for ci in (a_ci, b_ci):
+            if ci.cls.get_current_buffer_size() != 0:
+                raise Mismatch("size_nonzero_outside_contexts", cls=ci.name, size=ci.cls.get_current_buffer_size())
+    finally:
+        reset_class_state()
+        shutil.rmtree(d, ignore_errors=True)
 
 
 def _caps(draw, w):
@@ -70,6 +129,10 @@ def _gen_step(ci, dom, nfiles, script=None):
                 return {"t": "enter_cls", "h": roots[0], "cap": one}
             if kind == "enter":
                 return {"t": "enter_cls", "h": roots[0]}
+            if kind == "enter_obj":
+                return {"t": "enter_obj", "h": tgt}
+            if kind == "setcap_small":
+                return {"t": "setcap", "n": 0 if w.strategy == "memory" else max(1, w.model_size() // 2)}
             if kind == "exit":
                 if w.stack:
                     return {"t": "exit"}
@@ -145,9 +208,25 @@ def _kinds(w):
 
 
 def run_shard(spec, seed, tier, active):
+    acc = Acc()
+    if spec.get("mode") == "pairs":
+        from ..world import Mismatch
+        for a, b in RELATED + [(y, x) for x, y in RELATED]:
+            for b_ctx in ("cls", "obj"):
+                for ex in ("ab", "ba"):
+                    case = {"property": ID, "engine": "c15pairs", "a": a, "b": b, "b_ctx": b_ctx, "exit": ex}
+                    try:
+                        run_pair_case(case)
+                        d = None
+                    except Mismatch as mm:
+                        d = mm.describe()
+                    acc.case([h64("pair", a, b, b_ctx, ex)], case if len(acc.samples) < 1 else None, {"pair.cases": 1})
+                    if d is not None and len(acc.failures) < 2:
+                        acc.failures.append({"case": case, "desc": d})
+        acc.extra["class_pairs_exhaustive"] = True
+        return acc.result()
     ci = CLASSES[spec["cls"]]
     dom = StableDom(ci)
-    acc = Acc()
     n = 60 if tier == "quick" else 500
     max_steps = 40 if tier == "quick" else 60
 
@@ -156,7 +235,13 @@ def run_shard(spec, seed, tier, active):
         nfiles = draw(st.integers(2, 4))
         docs = [draw(dom.doc(ci.kind)) for _ in range(nfiles)]
         script = None
-        if draw(st.integers(0, 3)) == 0:
+        pick = draw(st.integers(0, 7))
+        if pick == 1:
+            # a collection buffered by its own context must still be flushed by a later forced flush
+            # after a nested backend-wide context came and went
+            script = [("enter_obj", 0), ("write", 0), ("enter", 0), ("exit", 0), ("setcap_small", 0),
+                      ("write", 1), ("exit", 0)]
+        elif pick == 0:
             # two sessions around a forced flush: entries that survive a forced flush must not
             # turn stale when their file is rewritten between the sessions
             a, b = 0, 1
@@ -178,4 +263,11 @@ def run_shard(spec, seed, tier, active):
 
 
 def replay(case):
+    if case.get("engine") == "c15pairs":
+        from ..world import Mismatch
+        try:
+            run_pair_case(case)
+        except Mismatch as mm:
+            return mm.describe()
+        return None
     return wm.replay_world(case)
